@@ -28,6 +28,8 @@ def classify(site):
 
 def run(chk):
     chk.level = "proof"
+    from props import backend_conformance
+    backend_conformance.run(chk, "C18", frame_only=True)
     chk.assume("bit-identity of LAPACK outputs across repeated calls is assumed (deterministic dependencies); device moves are vacuous on the "
                "single-device NumPy backend")
     chk.assume("array proxies are immutable values; every in-place construct is either proved to target a fresh local, covered by a sidecar modifies "
